@@ -210,7 +210,8 @@ def run_c17(run):
                   ("rangekeys N=2 K=2 <=2 rangekeys 2 suffixes", cs_consts(2, 2, 0, 0, 2, [], [], [2]))]
         nrandom = 5000
     else:
-        scopes = [("pts+rangedel N=3 K=2 all kinds DELSIZED{exact,wrong} <=1 rangedel", cs_consts(2, 3, 3, 1, 0, [0, 1, 2, 7, 18, 23], [1, 2], [2, 3])),
+        scopes = [("pts N=3 K=2 all kinds incl. SETWITHDEL, DELSIZED{exact,wrong} snaps<={2,3}", cs_consts(2, 3, 3, 0, 0, [0, 1, 2, 7, 18, 23], [1, 2], [2, 3])),
+                  ("pts+rangedel N=3 K=2 kinds{SET,DEL,MERGE,SINGLEDEL} <=1 rangedel", cs_consts(2, 3, 3, 1, 0, [0, 1, 2, 7], [], [2, 3])),
                   ("pts N=4 K=2 kinds{SET,DEL,MERGE,SINGLEDEL} snaps<={2,3,4}", cs_consts(2, 4, 4, 0, 0, [0, 1, 2, 7], [], [2, 3, 4])),
                   ("spans N=3 K=2 <=1 point{SET,DEL,SINGLEDEL} <=1 rangedel <=1 rangekey", cs_consts(2, 3, 1, 1, 1, [0, 1, 7], [], [2, 3])),
                   ("rangekeys N=3 K=2 <=3 rangekeys 2 suffixes", cs_consts(2, 3, 0, 0, 3, [], [], [2, 3]))]
